@@ -46,7 +46,7 @@ package reconnect
 //@   after call Transport).Write: written = (res0 == nil)
 //@   after call Transport).Write: pending = (res0 != nil)
 //@   assert call writeOrDone[github.com/aptpod/iscp-go/transport/reconnect.writeRes]: imp(arg1.err == nil, written)
-//@   assert call writeOrDone[github.com/aptpod/iscp-go/transport/reconnect.writeReq]: false   // the write loop never re-enqueues a request
+//@   forbid call writeOrDone[github.com/aptpod/iscp-go/transport/reconnect.writeReq]   // the write loop never re-enqueues a request
 //@   loop 1 invariant !pending
 //@   ensures done(r.ctx)
 
